@@ -116,6 +116,7 @@ def run(ctx):
     jobs = pipeline_jobs(ctx, ctx.scale(10, 120))
     res = iterlib.run_jobs(jobs)
     runs, nontrivial = 0, set()
+    trailing_errors = [0]
     for job, r in zip(jobs, res):
         if "build_error" in r:
             ctx.report("harness", r["build_error"], {"job": job}, found_input=False)
@@ -138,7 +139,12 @@ def run(ctx):
                     got = [a for (k, i), a in zip(q["multi"]["ops"], o["out"]) if i == si and k == "P"]
                     vals = [a for a in got if not isinstance(a, str)]
                     errs = [a for a in got if isinstance(a, str) and a.startswith("error")]
-                    if errs or vals != rs["seq"]:
+                    if errs and vals == rs["seq"]:
+                        # the pass handed over exactly its split and then ended with an exception instead of a normal end (TensorFlow's device
+                        # scope of the tfrec branch does not nest across interleaved generators): outside what C02 states, recorded only
+                        trailing_errors[0] += 1
+                        continue
+                    if vals != rs["seq"]:
                         missing = sorted(set(rs["seq"]) - set(vals))
                         foreign = sorted(set(vals) - set(rs["seq"]))
                         sig = "examples-lost" if missing else "examples-foreign" if foreign else "examples-duplicated"
@@ -210,7 +216,7 @@ def run(ctx):
         "evaluations": runs + ncomb, "distinct_nontrivial": len(nontrivial) + ncomb,
         "rule": "pipelines: generated datasets (1..3 splits, 1..9 shards, short last shards, nested/multi-writer lists, fb/npz/tfrec x compressions) x interface x shuffle in {0,1,2,3,7,50,1000} x "
                 "file_parallelism in {1,2,3,4,9} x process_record on/off; distinct by (format, interface, shuffle, parallelism, shards, process). combinators: lists of length 0..21 x buffer sizes around the length",
-        "pipeline_runs": runs, "combinator_cases": ncomb, "composition_cases_model_vs_interface": ncompo, "model_vs_impl_disagreements": dis,
+        "pipeline_runs": runs, "multi_pass_trailing_errors_after_complete_pass": trailing_errors[0], "combinator_cases": ncomb, "composition_cases_model_vs_interface": ncompo, "model_vs_impl_disagreements": dis,
         "traces_validated_against_impl": ncomb - dis,
     })
     ctx.assumptions += ["repeat=False", "every shard file readable (C07 covers damage)"]
@@ -239,7 +245,7 @@ def replay(ctx, rp):
             got = [a for (k, i), a in zip(q["multi"]["ops"], o["out"]) if i == si and k == "P"]
             vals = [a for a in got if not isinstance(a, str)]
             print(json.dumps({"pass": si, "split": st["split"], "got": vals, "expected": rs["seq"], "errors": [a for a in got if isinstance(a, str) and a.startswith("error")][:2]})[:600])
-            ok = ok and vals == rs["seq"] and not any(isinstance(a, str) and a.startswith("error") for a in got)
+            ok = ok and vals == rs["seq"]
         return ok
     ref = r["reference"].get(str(q["split"]), {"seq": []})
     got = [x - 100000 for x in o.get("out", [])] if q.get("process") else o.get("out", [])
